@@ -88,6 +88,8 @@ public:
     /// report a violation of class cls for the current case; the case is abandoned at the end of the current step
     void viol(const char *cls, const char *fmt, ...) __attribute__((format(printf, 3, 4)));
     bool violated() const { return violated_; }
+    /// prefix put in front of every violation class of the current case (set by the harness in setup())
+    void setClassPrefix(const char *p) { classPrefix_ = p; }
     /// operation-level trace record (only when the case has trace=1)
     void trace(const char *fmt, ...) __attribute__((format(printf, 2, 3)));
     bool tracing() const { return tracing_; }
@@ -130,6 +132,7 @@ private:
     bool violated_ = false, quiet_ = false, crashFired_ = false, hitLimit_ = false;
     int violCount_ = 0;
     bool tracing_ = false;
+    std::string classPrefix_;
     friend struct Quiet;
 };
 
